@@ -12,11 +12,13 @@ C18.d     exp_value_from_measurement_bases visits every (basis, term) once with 
 from __future__ import annotations
 
 import ast
+import itertools
 from typing import List
 
 import sympy as sp
 
 from ..alias import Analyzer
+from ..consteval import Opaque, Raised, Undecidable
 from ..index import AnalysisError, FunctionInfo, Index, full, norm, own_nodes
 from ..report import Report
 from ..rules.purity import check_purity
@@ -165,12 +167,70 @@ def check_positional_selection(idx: Index, rep: Report):
     except Undecidable as e:
         raise AnalysisError(f"histogram functions not foldable: {e}")
     check_post_selection_functions(idx, rep, rule)
+    check_resampling(idx, rep, rule)
+
+
+class _Samples:
+    _sa_model = True
+
+    def __init__(self, outcome, size):
+        self.outcome, self.size = outcome, size
+
+
+class _Bag:
+    """stand-in for collections.Counter over sample batches"""
+    _sa_model = True
+
+    def __init__(self, samples=None):
+        self.c = {}
+        if samples is not None and samples.size:
+            self.c[samples.outcome] = samples.size
+
+    def __add__(self, o):
+        r = _Bag()
+        r.c = dict(self.c)
+        for k, v in o.c.items():
+            r.c[k] = r.c.get(k, 0) + v
+        return r
+    __iadd__ = __add__
+
+    def items(self):
+        return list(self.c.items())
+
+
+class _Distr:
+    """stand-in for scipy's discrete distribution: every draw is the first listed outcome (a legitimate sample of any size)"""
+    _sa_model = True
+
+    def __init__(self, values):
+        self.xk, self.pk = values
+
+    def rvs(self, size=1):
+        if not isinstance(size, int) or size < 0:
+            raise Undecidable(f"rvs(size={size!r})")
+        return _Samples(self.xk[0], size)
+
+
+def check_resampling(idx: Index, rep: Report, rule: str):
+    """get_resampled_frequencies folded with the sampler replaced by a stand-in whose draws are all the first outcome: the result must be
+    {that outcome, formatted back to the original bitstring: 1}, for shot counts below, at and above the chunk size."""
+    from ..rules import circuitsem as cs
     bs = idx.function(f"{BOOT}::get_resampled_frequencies")
-    t = full(bs.node)
-    ok = "format_specifier = '0' + str(n_qubits) + 'b'" in t and "xk[i] = int(k, 2)" in t and "v / ncount" in t
-    rep.decide(ok, rule, bs, bs.node, text="resampling: int(k, 2) <-> format(k, '0<n>b'), normalised by the number of draws",
-               what="resampled outcomes are formatted back to bitstrings of the original length and normalised by the number of draws",
-               reason="bitstring <-> integer conversion or normalisation changed")
+    for first, others in (("0101", ["1111", "0000"]), ("0", ["1"]), ("10000000000", ["00000000001"]), ("0001", [])):
+        for ncount in (1, 7, 10 ** 7, 10 ** 7 + 5, 25 * 10 ** 6):
+            fd = {first: sp.Rational(1, 2)}
+            for o in others:
+                fd[o] = sp.Rational(1, 2) / len(others)
+            fo = cs.make_folder(idx, BOOT, ctors={"stats.rv_discrete": lambda args, kwargs: _Distr(kwargs["values"]), "Counter": lambda args, kwargs: _Bag(*args)})
+            try:
+                got = fo.run_function(bs.node, {"freq_dict": fd, "ncount": ncount})
+            except (Undecidable, Raised) as e:
+                raise AnalysisError(f"get_resampled_frequencies not foldable: {e}")
+            ok = isinstance(got, dict) and list(got.keys()) == [first] and sp.nsimplify(got[first]) == 1
+            rep.decide(ok, rule, bs, bs.node, text=f"resampling {ncount} draws, every draw '{first}'",
+                       what="outcomes are converted to integers and back to bitstrings of the original length, every requested draw is made (chunk sizes add up) and "
+                            "counts are normalised by the number of draws",
+                       reason=f"with every draw equal to '{first}' the result is {got} instead of {{'{first}': 1}}")
 
 
 def check_post_selection_functions(idx: Index, rep: Report, rule: str):
@@ -235,18 +295,57 @@ def check_hist_purity(idx: Index, rep: Report, an: Analyzer):
 
 def check_assembly(idx: Index, rep: Report):
     rule = "K9.assembly"
+    from ..rules import circuitsem as cs
+    from .C14 import _QOp
     f = idx.function(f"{GROUP}::exp_value_from_measurement_bases")
-    t = full(f.node)
-    ok = "for basis, freqs in histograms.items(): for term, coef in sub_ops[basis].terms.items(): exp_value += get_expectation_value_from_frequencies_oneterm(term, freqs) * coef" in t
-    rep.decide(ok, rule, f, f.node, text="sum over bases, sum over the basis' own terms: <term>_hist(basis) * coef",
-               what="each term is evaluated once, on the histogram of its own basis, with its own coefficient", reason="assembly loop changed")
+    b1, b2 = ((0, "X"), (1, "Z")), ((0, "Z"),)
+    o1, o2 = _QOp(), _QOp()
+    ca, cb, cc = sp.symbols("ca cb cc")
+    o1.terms = {((0, "X"),): ca, ((0, "X"), (1, "Z")): cb}
+    o2.terms = {((0, "Z"),): cc, (): ca}
+
+    def probe(args, kwargs):
+        return sp.Symbol(f"E[{args[0]}|{args[1]}]")
+    fo = cs.make_folder(idx, GROUP, ctors={"get_expectation_value_from_frequencies_oneterm": probe})
+    fo.env["warnings"] = Opaque("warnings")
+    try:
+        got = fo.run_function(f.node, {"sub_ops": {b1: o1, b2: o2}, "histograms": {b2: "H2", b1: "H1"}})
+    except (Undecidable, Raised) as e:
+        raise AnalysisError(f"exp_value_from_measurement_bases not foldable: {e}")
+    want = ca * probe([((0, "X"),), "H1"], {}) + cb * probe([((0, "X"), (1, "Z")), "H1"], {}) + cc * probe([((0, "Z"),), "H2"], {}) + ca * probe([(), "H2"], {})
+    rep.decide(sp.simplify(sp.nsimplify(got) - want) == 0, rule, f, f.node, text="sum over bases, sum over the basis' own terms: <term>_hist(basis) * coef",
+               what="each term is evaluated once, on the histogram of its own basis, with its own coefficient", reason=f"folds to {got}")
     g = idx.function(f"{GROUP}::group_qwc")
-    t = full(g.node)
-    ok = "res = group_into_tensor_product_basis_sets(qb_ham, seed)" in t and "if len(res2) < len(res): res = res2" in t and t.rstrip().endswith("return res")
-    rep.decide(ok, rule, g, g.node, text="returns one complete grouping (the smallest of the repeats)", what="the wrapper returns a grouping produced for the whole operator, never a mix of two runs",
-               reason="wrapper logic changed")
+    for sizes in ((3, 2, 4), (2, 3, 3), (4, 4, 1), (3,)):
+        outs = [{f"run{j}-basis{i}": f"op{j}.{i}" for i in range(n)} for j, n in enumerate(sizes)]
+        calls = []
+
+        def grouping(args, kwargs, outs=outs, calls=calls):
+            calls.append(args)
+            return dict(outs[len(calls) - 1])
+        fo = cs.make_folder(idx, GROUP, ctors={"group_into_tensor_product_basis_sets": grouping})
+        try:
+            got = fo.run_function(g.node, {"qb_ham": Opaque("qb_ham"), "seed": 11, "n_repeat": len(sizes)})
+        except (Undecidable, Raised, IndexError) as e:
+            raise AnalysisError(f"group_qwc not foldable: {e}")
+        ok = got in outs and len(got) == min(sizes) and len(calls) == len(sizes) and all(c and c[0] == Opaque("qb_ham") for c in calls) and calls[0][1:] == [11]
+        rep.decide(ok, rule, g, g.node, text=f"{len(sizes)} grouping run(s) of sizes {sizes}: one complete, smallest grouping is returned",
+                   what="the wrapper returns a grouping produced for the whole operator (never a mix of two runs), the smallest of the repeats, the first run seeded as asked",
+                   reason=f"returned {got}; grouping calls {calls}")
     c = idx.function(f"{GROUP}::check_bases_commute_qwc")
-    t = full(c.node)
-    ok = "for i in set(b1_dict) & set(b2_dict): if b1_dict[i] != b2_dict[i]: return False" in t and t.rstrip().endswith("return True")
-    rep.decide(ok, rule, c, c.node, text="qubit-wise commutation: equal letters on every shared qubit", what="two bases are compatible iff they agree on every qubit both act on",
-               reason="compatibility test changed")
+    letters = [None, "X", "Y", "Z"]
+    bases = [tuple((q, l) for q, l in enumerate(ls) if l) for ls in itertools.product(letters, repeat=2)]
+    bad = []
+    for x in bases:
+        for y in bases:
+            fo = cs.make_folder(idx, GROUP)
+            try:
+                got = fo.run_function(c.node, {"b1": x, "b2": y})
+            except (Undecidable, Raised) as e:
+                raise AnalysisError(f"check_bases_commute_qwc not foldable: {e}")
+            dx, dy = dict(x), dict(y)
+            want_c = all(dx[q] == dy[q] for q in set(dx) & set(dy))
+            if bool(got) != want_c:
+                bad.append((x, y, got))
+    rep.decide(not bad, rule, c, c.node, text=f"qubit-wise commutation over all {len(bases) ** 2} pairs of two-qubit bases", what="two bases are compatible iff they agree on every qubit both act on",
+               reason=f"e.g. {bad[:1]}")
